@@ -103,10 +103,22 @@ def validatefirst(run, fx):
             continue
         bad = []
         nb = 0
+        # the decoded value: any local that is initialised or assigned from a decode (`usv = *first`, `const uint32 ch = *first`)
+        dec_ids = {d_['i'] for d_ in decodes}
+        decoded = set()
+        for _, u in fn.elements():
+            if u['k'] == 'DeclStmt':
+                for d_ in u['decls']:
+                    if d_.get('init') is not None and any(x.get('i') in dec_ids for x in fn.walk(d_['init'])):
+                        decoded.add(d_['n'])
+            elif u['k'] == 'BinaryOperator' and u['op'] == '=' and any(x.get('i') in dec_ids for x in fn.walk(u['c'][1])):
+                l_ = fn.strip(u['c'][0])
+                if l_['k'] == 'DeclRefExpr':
+                    decoded.add(l_['d'].split('::')[-1])
         for e in incs:
             fs = [f[:3] for f in dom.facts_at(fn, e['i'])]
             bounded_region = not any(f[0].startswith('last') and 'operator!=' not in f[0] and 'operator==' not in f[0] and f[1] == '==' and f[2] == '0' for f in fs)
-            has_nul = any('usv' in f[0] and f[1] == '!=' and f[2] == '0' for f in fs)
+            has_nul = any((f[0] in decoded or f[0].strip('()').split(' = ')[0] in decoded or 'usv' in f[0] or 'reference::operator' in f[0]) and f[1] == '!=' and f[2] == '0' for f in fs)
             has_err = any('first.error()' in f[0] and f[1] == '==' and f[2] == '0' for f in fs)
             has_end = any('operator!=' in f[0] and 'last' in f[0] and f[1] == '!=' and f[2] == '0' for f in fs)
             if bounded_region:
